@@ -230,6 +230,24 @@ theorem current_priority_is_max (items : List Int) :
     minPrio ≤ maxPriority items ∧ (∀ v ∈ items, v ≤ maxPriority items) ∧ (maxPriority items = minPrio ∨ maxPriority items ∈ items) :=
   maxPriority_foldl items minPrio
 
+/-- The priority of an application is the maximum over its OUTSTANDING asks: an allocated entry (allocated by the
+    scheduler, recovered after a restart or placed by the RM), whatever its priority and wherever it stands in the
+    history, leaves `askMaxPriority` unchanged — and with it the current priority of the leaf queue and of its parents,
+    which are functions of the applications' values only (`PrioLeaf.current`, `PrioQueue.value`). -/
+theorem current_priority_ignores_allocated (e₁ e₂ : List (Int × Bool)) (p : Int) (fence : Bool) (offset : Int)
+    (others : List (List Int)) :
+    askMaxPriority (e₁ ++ [(p, true)] ++ e₂) = askMaxPriority (e₁ ++ e₂) ∧
+    (PrioLeaf.mk fence offset (outstanding (e₁ ++ [(p, true)] ++ e₂) :: others)).value =
+      (PrioLeaf.mk fence offset (outstanding (e₁ ++ e₂) :: others)).value := by
+  refine ⟨askMaxPriority_ignores_allocated e₁ e₂ p, ?_⟩
+  have : outstanding (e₁ ++ [(p, true)] ++ e₂) = outstanding (e₁ ++ e₂) := by
+    rw [outstanding_append, outstanding_append, outstanding_allocated, outstanding_append]; simp
+  rw [this]
+
+-- a recovered allocation of priority 9 next to pending asks of priority 1 and 2: the application's priority is 2
+example : askMaxPriority [(9, true), (1, false), (2, false)] = 2 := by decide
+example : askMaxPriority [(9, true)] = minPrio := by decide
+
 -- system-critical ask priority below an offset queue: 2000000000 + 1000000000 saturates (a wrapping int32 sum gives -1294967296)
 example : (PrioQueue.mk false 1000000000 true [[2000000000, 5], [7]] []).value = 2147483647 := by decide
 example : (PrioQueue.mk false (-1000000000) false [] [⟨false, -1000000000, [[-2000000000]]⟩, ⟨true, 5, [[]]⟩]).value = -2147483648 := by decide
